@@ -217,6 +217,22 @@ def sat_jobs(out, tier):
                         ('every_theory_popped_once', 'xt_th_pops == self->theories.n')],
                assigns='__exc, xt_th_pops, self->assigns, self->level, self->reason, self->trail, self->trail_lim, self->decisions'))
 
+    # assume(p): the matching 'push' of pop - one level is opened at the current end of the trail, the decision is recorded, every theory is
+    # pushed exactly once, and only then the literal is enqueued and propagated (both by contract here)
+    THPUSH, ENQ2, PROP2 = 'smt_theory_push', 'smt_sat_core_enqueue__lit__constrp', 'smt_sat_core_propagate'
+    stubs3 = {THPUSH: Contract(requires=['1'], ensures=[('counted', 'xt_th_pushes == __CPROVER_old(xt_th_pushes) + 1')], assigns='xt_th_pushes'),
+              ENQ2: Contract(requires=['1'], ensures=['1'], assigns='xt_after_push'), PROP2: Contract(requires=['1'], ensures=['1'], assigns='xt_after_push'), LST: stubs[LST]}
+    out.append(Job('sat.assume', 'smt_sat_core_assume__lit', tus=TUS_S,
+                   contract=Contract(requires=[FRESH + ' && __CPROVER_is_fresh(p, sizeof(*p))', '__exc == 0 && xt_th_pushes == 0', 'self->prop_q.n == 0 && self->trail.n <= 3 && self->trail_lim.n <= 2 && self->decisions.n == self->trail_lim.n && self->theories.n <= 2'],
+                                     ensures=[('noexcept', '__exc == 0'),
+                                              ('one_level_opened_at_the_end_of_the_trail', 'self->trail_lim.n == %s + 1 && self->trail_lim.e[%s] == %s' % (S('trail_lim.n'), S('trail_lim.n'), S('trail.n'))),
+                                              ('decision_recorded', 'self->decisions.n == %s + 1 && self->decisions.e[%s].x == p->x' % (S('decisions.n'), S('decisions.n'))),
+                                              ('every_theory_pushed_once', 'xt_th_pushes == self->theories.n')],
+                                     assigns='__exc, xt_th_pushes, xt_after_push, self->trail_lim, self->decisions'),
+                   defines=d, unwind=6, model_unwind=6, spec_headers=[], ghost='unsigned xt_th_pushes; unsigned xt_after_push;', callee_contracts=stubs3, replace=list(stubs3), exceptions=True, caps=dict(CAPS_S, queue=4),
+                   abstract_fields=ABS_S, timeout=1200,
+                   force_types=['std::vector<smt::constr *>', 'std::vector<smt::lit>', 'std::vector<unsigned short>', 'std::vector<unsigned long>'],
+                   bounded='<= 2 open levels, <= 2 theories; enqueue and propagate by (empty) contracts'))
     # check(lits): the trial assumptions are all undone - the decision level on return is the one found on entry when the literals
     # are compatible (true), and never above it.  assume / propagate may backjump (assumed: they never leave the level higher than
     # one above / at the level they found), pop closes exactly one level (proved above).
